@@ -253,6 +253,10 @@ def check(P, R, tier):
     R.floor("RF2-add", "decoded (start, count) points of the day and week adders", na, 200000)
     nd = adddecode.run_daynumbers(R, tu, "RF2-add")
     R.floor("RF2-add", "decoded probes of the day-number adders", nd, 100)
+    # business-day dates: calendar days and weeks added to them (the carry through months and years is the adder's own)
+    import bizdecode
+    nb = bizdecode.run_parallel(R, tu, "RF2-add", jobs=14, only=("__bizda_add_d", "__bizda_add_w"))
+    R.floor("RF2-add", "decoded points of the business-day date routines", nb, 20000)
     import fresh
     nf = fresh.check_unit(R, tu, "RF-fresh")
     R.floor("RF-fresh", "uses of looked-up period lengths in the date core", nf, 50)
